@@ -13,6 +13,10 @@ Definition had (a b : list Q) : list Q := map (fun p => fst p * snd p) (combine 
 Definition mass (r s : list Q) : Q := total (had r s).
 Definition mix_weights (masses : list Q) : list Q := map (fun m => m / total masses) masses.
 Definition mean_coord (eps : Q) (r s xs : list Q) : Q := dot (had r s) xs / (mass r s + eps).
+(** the repaired mean: np.where(mass > 0, mass, 1.0) in the denominator - the weighted average itself; a component without mass
+    keeps a zero mean *)
+Definition safe_mass (m : Q) : Q := if Qle_bool m 0 then 1 else m.
+Definition mean_guarded (r s xs : list Q) : Q := dot (had r s) xs / safe_mass (mass r s).
 (** v^T Cov_k v, where proj_i = v . (x_i - mean_k) *)
 Definition quad_form (eps : Q) (r s proj : list Q) : Q := dot (had r s) (map (fun t => t * t) proj) / (mass r s + eps).
 (** Cov_k[a][b], with da_i, db_i the centred coordinates a and b of point i *)
